@@ -211,13 +211,14 @@ class VSeq(V):
   kind = 'list'
 
   def __init__(self, length, at, esort, elems=None, dupfree=False,
-               mutable=True):
+               mutable=True, sid=None):
     self.length = length
     self.at = at
     self.esort = esort
     self.elems = elems      # z3 set term of the elements, when tracked
     self.dupfree = dupfree
     self.mutable = mutable
+    self.sid = sid          # z3 Int term naming the sequence (for UFs over it)
 
   def flatten(self):
     out = [self.length]
@@ -227,7 +228,7 @@ class VSeq(V):
 
   def clone(self):
     c = VSeq(self.length, self.at, self.esort, self.elems, self.dupfree,
-             self.mutable)
+             self.mutable, self.sid)
     return c
 
   def same_as(self, other):
@@ -400,7 +401,8 @@ class TSeq(Shape):
       ctx.assume(z3.ForAll([i, j], z3.Implies(
           z3.And(i >= 0, i < n, j >= 0, j < n, at(i) == at(j)), i == j)),
                  'seq dupfree')
-    return VSeq(n, at, self.esort, elems, self.dupfree)
+    return VSeq(n, at, self.esort, elems, self.dupfree,
+                sid=z3.Int(ctx.sym(name + '.sid')))
 
 
 class TDict(Shape):
